@@ -10,6 +10,7 @@ Definition dispatch (e : sexp) : option sexp :=
   match e with
   | SList (Atom "fs" :: _) => run_fs e
   | SList (Atom "declared" :: _) => run_declared e
+  | SList (Atom "noninterf" :: _) => run_noninterf e
   | SList (Atom "pacman" :: _) => run_pacman e
   | SList (Atom "octal" :: _) => run_octal e
   | SList (Atom "docopt" :: _) => run_docopt e
